@@ -28,6 +28,7 @@ RULES_DOC["R6"] = c18_commit.DOC
 RULES_DOC["R7"] = ("= C16.R1: the key-table slot is published NULL -> LOCKED -> table and is put back to NULL when the "
                    "table cannot be allocated (a failed set leaves no lock sentinel behind)")
 RULES_DOC["R8"] = "a routine that receives an array of pool handles frees, on its own paths, only the pools it created itself: every ABTI_pool_free call in it is governed by the test that the caller's slot was ABT_POOL_NULL"
+RULES_DOC["X4"] = common.X4_DOC
 RULES_DOC.update({
     "R1": "no dropped error (-Werror=unused-result witness over all units) and no out-parameter read before the result test",
     "R2": "every error return has released or handed over the resources acquired on that path (incl. init_stage ladders)",
@@ -509,6 +510,7 @@ def rule_R8(P, rep):
 
 
 def run(P, rep, tier):
+    common.rule_X4(P, rep)
     rule_R1(P, rep)
     rule_R2(P, rep)
     rule_R3(P, rep)
